@@ -179,6 +179,23 @@ func c18Run(env *core.Env, idx int) core.CaseResult {
 	if w == nil {
 		w = gen.GenWorld(rng, o)
 	}
+	if idx%3 == 0 && w.Features["id-scoped-world"] == 0 {
+		// integers that only survive when read as written (above 2^53): a document decoded by the loader's path and the same document
+		// decoded by the caller for pre-loading (plain encoding/json) must still give one output
+		for _, d := range w.Docs {
+			dm, _ := d.(map[string]interface{})
+			defs, _ := dm["definitions"].(map[string]interface{})
+			for _, v := range defs {
+				if sm, ok := v.(map[string]interface{}); ok {
+					if _, isRef := sm["$ref"]; !isRef {
+						sm["maxLength"] = json.Number("9007199254740993")
+						sm["x-big"] = []interface{}{json.Number("18014398509481985"), json.Number("1e400")}[:1]
+					}
+				}
+			}
+		}
+		res.Count("world-with-integers-above-2^53", 1)
+	}
 	in := oworld(w)
 	res.Hash = core.HashOf(w.Docs)
 	var ext []string
